@@ -1,6 +1,7 @@
 mod api;
 mod builder_run;
 mod c08;
+mod claims_replay;
 mod conc;
 mod core_replay;
 mod edits;
@@ -548,6 +549,24 @@ fn eval_terms_cmd(args: &[String]) -> i32 {
     if r.nviol > 0 { 1 } else { 0 }
 }
 
+/// pv replay-claims --cases F(json with keys/deco/time/typed) --tier T --seed N --out summary.json
+fn replay_claims_cmd(args: &[String]) -> i32 {
+    install_panic_hook();
+    let path = arg(args, "--cases").expect("--cases");
+    let tier = arg(args, "--tier").unwrap_or_else(|| "quick".into());
+    let seed: u64 = arg(args, "--seed").and_then(|s| s.parse().ok()).unwrap_or(1);
+    let out = arg(args, "--out").expect("--out");
+    let t0 = Instant::now();
+    let c: Value = serde_json::from_str(&std::fs::read_to_string(&path).expect("cases")).expect("cases json");
+    let empty = vec![];
+    let r = claims_replay::run(c["keys"].as_object().expect("keys"), c["deco"].as_array().unwrap_or(&empty),
+                               c["time"].as_array().unwrap_or(&empty), c["typed"].as_array().unwrap_or(&empty), seed, tier == "thorough");
+    let s = json!({"prop": "C18", "evaluations": r.evaluations, "distinct": r.distinct, "nviol": r.nviol, "violations": r.violations,
+                   "samples": r.samples, "wall_s": t0.elapsed().as_secs_f64()});
+    std::fs::write(&out, serde_json::to_string_pretty(&s).unwrap()).expect("write");
+    if r.nviol > 0 { 1 } else { 0 }
+}
+
 fn main() {
     let args: Vec<String> = std::env::args().collect();
     let code = match args.get(1).map(|s| s.as_str()) {
@@ -558,6 +577,7 @@ fn main() {
         Some("run-parser") => run_parser_cmd(&args),
         Some("replay-shapes") => replay_shapes_cmd(&args),
         Some("eval-terms") => eval_terms_cmd(&args),
+        Some("replay-claims") => replay_claims_cmd(&args),
         _ => {
             eprintln!("usage: pv <smoke|replay-core> ...");
             2
